@@ -17,7 +17,20 @@ import (
 	"github.com/internetarchive/Zeno/pkg/models"
 )
 
-const propID = "C12"
+// The same harness is part B of C16 (harness/c16b/main.go is a link to this file): there only the
+// variants with a second caller on the same seed are run and the clause judged is C16's "after the
+// queue drains the reactor tracks no seed and all tokens are free".
+var (
+	propID      = "C12"
+	harnessName = "c12"
+	drainMode   = false
+)
+
+func init() {
+	if os.Getenv("VERIF_HARNESS") == "c16b" || os.Getenv("VERIF_PART") == "c16b" {
+		propID, harnessName, drainMode = "C16", "c16b", true
+	}
+}
 
 type variant struct {
 	Name     string
@@ -29,6 +42,9 @@ type variant struct {
 	// Dup: when the consumer finishes seed "a", a second caller issues this call for the same seed
 	// at the same time ("finish" = a concurrent repeated finish, "feedback" = a feedback racing the finish)
 	Dup string
+	// PBonus: preemptions on top of the tier's bound (the two-caller races need two: one to let the
+	// second caller start, one to bring the first back between the second's two steps)
+	PBonus int
 	Inserts1 []string
 	Inserts2 []string
 }
@@ -183,6 +199,74 @@ func scenario(v variant) *vsched.Scenario {
 	return sc
 }
 
+// bulkScenario: "feeding a tracked seed back never blocks" for a large token count. n seeds are
+// inserted and taken by the consumer, which then feeds every one of them back while nobody reads the
+// output (capacity 1): the reactor must have room for all of them. One schedule (the canonical one).
+func bulkScenario(n int) *vsched.Scenario {
+	var fedBack, finished int
+	var out chan *models.Item
+	sc := &vsched.Scenario{Name: fmt.Sprintf("t%d-bulk-feedback-without-reader", n)}
+	sc.Setup = func(x *vsched.Exec) {
+		reactor.VerifReset()
+		config.VerifSet(&config.Config{NoStdoutLogging: true, NoStderrLogging: true, NoFileLogging: true})
+		fedBack, finished = 0, 0
+		out = make(chan *models.Item, 1)
+	}
+	sc.Body = func() {
+		if err := reactor.Start(n, out); err != nil {
+			panic(err)
+		}
+		go func() { // producer
+			for i := 0; i < n; i++ {
+				if err := reactor.ReceiveInsert(newItem(fmt.Sprintf("s%d", i))); err != nil {
+					panic(err)
+				}
+			}
+		}()
+		go func() { // consumer
+			items := make([]*models.Item, 0, n)
+			for len(items) < n {
+				items = append(items, <-out)
+			}
+			for _, it := range items { // nobody reads the output now
+				if err := reactor.ReceiveFeedback(it); err != nil {
+					panic(err)
+				}
+				fedBack++
+			}
+			for i := 0; i < n; i++ {
+				it := <-out
+				if err := reactor.MarkAsFinished(it); err != nil {
+					panic(err)
+				}
+				finished++
+			}
+		}()
+	}
+	sc.Idle = func(p string) bool { return strings.Contains(p, "reactor.go") && strings.Contains(p, "recv r.input") }
+	sc.OKEnds = []string{vsched.EndQuiescent, vsched.EndDeadlock, vsched.EndDone}
+	sc.AtEnd = func(x *vsched.Exec) error {
+		if fedBack != n {
+			return fmt.Errorf("feedback-blocks: with %d tokens only %d of %d tracked seeds could be fed back while the output was not read; blocked: %s", n, fedBack, n, strings.Join(x.Blocked(), "; "))
+		}
+		if finished != n || reactor.VerifTokens() != 0 || reactor.VerifTracked() != 0 {
+			return fmt.Errorf("bulk: %d of %d finished, %d tokens in use, %d tracked", finished, n, reactor.VerifTokens(), reactor.VerifTracked())
+		}
+		return nil
+	}
+	sc.Horizon = time.Minute
+	sc.Signature = func(v *vsched.Violation) string {
+		if i := strings.IndexByte(v.Message, ':'); i > 0 && v.Kind != "crash" {
+			return v.Message[:i]
+		}
+		return vsched.DefaultSignature(v)
+	}
+	sc.KnownSig = func(sig string) bool { return hkit.IsListed(propID, sig) }
+	return sc
+}
+
+var bulkTokens = []int{1000, 10000} // 10 000 tokens = ~110 k scheduler steps (the engine stops an execution at 200 k)
+
 func consumer(w *world) {
 	seen := map[string]int{}
 	extra := w.v.Extra
@@ -291,8 +375,8 @@ func variants(tier string) []variant {
 	vs := []variant{
 		{Name: "t1-three-seeds", Tokens: 1, Extra: true, Inserts1: []string{"a", "b"}, Inserts2: []string{"c"}},
 		{Name: "t2-three-seeds", Tokens: 2, Extra: true, Inserts1: []string{"a", "b"}, Inserts2: []string{"c"}},
-		{Name: "t2-concurrent-repeated-finish", Tokens: 2, Dup: "finish", Inserts1: []string{"a", "b"}, Inserts2: []string{"c"}},
-		{Name: "t2-feedback-racing-finish", Tokens: 2, Dup: "feedback", Inserts1: []string{"a", "b"}},
+		{Name: "t2-concurrent-repeated-finish", Tokens: 2, Dup: "finish", PBonus: 1, Inserts1: []string{"a", "b"}},
+		{Name: "t2-feedback-racing-finish", Tokens: 2, Dup: "feedback", PBonus: 1, Inserts1: []string{"a", "b"}},
 		{Name: "t1-freeze", Tokens: 1, Freeze: true, Inserts1: []string{"a", "b"}, Inserts2: []string{"c"}},
 		{Name: "t2-freeze", Tokens: 2, Freeze: true, Inserts1: []string{"a", "b"}, Inserts2: []string{"c"}},
 		{Name: "t1-freeze-rest-stop-late-calls", Tokens: 1, Freeze: true, StopRest: true, Inserts1: []string{"a"}, Inserts2: []string{"b"}},
@@ -317,6 +401,26 @@ func main() {
 		fmt.Sscanf(v, "%d", &K)
 	}
 	vs := variants(a.Tier)
+	if drainMode {
+		var f []variant
+		for _, v := range vs {
+			if v.Dup != "" {
+				f = append(f, v)
+			}
+		}
+		vs = f
+		bulkTokens = nil
+	}
+	if o, ok := a.Extra["only"]; ok {
+		var f []variant
+		for _, v := range vs {
+			if strings.Contains(v.Name, o) {
+				f = append(f, v)
+			}
+		}
+		vs = f
+		bulkTokens = nil
+	}
 	if a.Replay != "" {
 		replay(a.Replay, vs)
 		return
@@ -325,7 +429,7 @@ func main() {
 		// shard worker: variant = shard / K, frontier sub-shard = shard % K
 		v := vs[a.Shard/K]
 		sc := scenario(v)
-		rep := vsched.Explore(sc, vsched.Bounds{P: P, F: 0, MaxWall: maxWall, Shard: a.Shard % K, Of: K})
+		rep := vsched.Explore(sc, vsched.Bounds{P: P + v.PBonus, F: 0, MaxWall: maxWall, Shard: a.Shard % K, Of: K})
 		hkit.EmitShardResult(rep)
 		return
 	}
@@ -334,10 +438,28 @@ func main() {
 			hkit.EngineError("%v", err)
 		}
 	}
-	outs := hkit.Shards(len(vs)*K, fmt.Sprintf("--p=%d", P), fmt.Sprintf("--k=%d", K))
+	shardArgs := []string{fmt.Sprintf("--p=%d", P), fmt.Sprintf("--k=%d", K)}
+	if o, ok := a.Extra["only"]; ok {
+		shardArgs = append(shardArgs, "--only="+o)
+	}
+	outs := hkit.Shards(len(vs)*K, shardArgs...)
 	total := &vsched.Report{Exhaustive: true}
 	var per []map[string]any
 	seenSig := map[string]bool{}
+	for _, n := range bulkTokens {
+		sc := bulkScenario(n)
+		r := vsched.Explore(sc, vsched.Bounds{P: 0, F: 0, MaxWall: maxWall})
+		per = append(per, map[string]any{"scenario": r.Scenario, "executions": r.Executions, "states": r.States, "transitions": r.Transitions, "ends": r.Ends, "exhaustive": r.Exhaustive, "wall_s": r.WallS})
+		for _, v := range r.Violations {
+			v := v
+			if err := vsched.Confirm(bulkScenario(n), &v); err != nil {
+				hkit.EngineError("violation did not replay: %v", err)
+			}
+			hkit.Report(propID, v.Sig, map[string]any{"engine": "explore", "harness": harnessName, "bulk_tokens": n, "violation": v}, fmt.Sprintf("%s: %s: %s", r.Scenario, v.Kind, firstLine(v.Message)))
+		}
+		r.Sample = nil
+		total.Merge(r)
+	}
 	for i, b := range outs {
 		var r vsched.Report
 		hkit.ShardResult(b, &r)
@@ -366,7 +488,7 @@ func main() {
 		"sync.Map.Range iterates in insertion order",
 		"state cache: two prefixes with equal happens-before fingerprints have equal futures",
 	}, hkit.Violations())
-	fmt.Printf("C12 %s: %d executions, %d states, %d transitions, %d outcomes, exhaustive=%v\n", a.Tier, total.Executions, total.States, total.Transitions, len(total.Outcomes), total.Exhaustive)
+	fmt.Printf(propID+" %s"+map[bool]string{true: " (part B)", false: ""}[drainMode]+": %d executions, %d states, %d transitions, %d outcomes, exhaustive=%v\n", a.Tier, total.Executions, total.States, total.Transitions, len(total.Outcomes), total.Exhaustive)
 	hkit.Exit()
 }
 
@@ -387,7 +509,7 @@ func handleViolation(v variant, vio *vsched.Violation) {
 		hkit.EngineError("violation did not replay: %v", err)
 	}
 	sig := vio.Sig
-	hkit.Report(propID, sig, map[string]any{"engine": "explore", "harness": "c12", "variant": v, "violation": vio},
+	hkit.Report(propID, sig, map[string]any{"engine": "explore", "harness": harnessName, "variant": v, "violation": vio},
 		fmt.Sprintf("%s: %s: %s", v.Name, vio.Kind, firstLine(vio.Message)))
 }
 
@@ -408,14 +530,21 @@ func replay(path string, vs []variant) {
 	}
 	var r struct {
 		Variant   variant          `json:"variant"`
+		Bulk      int              `json:"bulk_tokens"`
 		Violation vsched.Violation `json:"violation"`
 	}
 	if err := json.Unmarshal(b, &r); err != nil {
 		hkit.EngineError("%v", err)
 	}
-	v, x := vsched.Replay(scenario(r.Variant), r.Violation.Choices)
-	for _, s := range x.Steps {
-		fmt.Printf("  %-28s %-70s case=%d\n", s.Thread, s.Point, s.Case)
+	sc := scenario(r.Variant)
+	if r.Bulk > 0 {
+		sc = bulkScenario(r.Bulk)
+	}
+	v, x := vsched.Replay(sc, r.Violation.Choices)
+	if r.Bulk == 0 {
+		for _, s := range x.Steps {
+			fmt.Printf("  %-28s %-70s case=%d\n", s.Thread, s.Point, s.Case)
+		}
 	}
 	if v == nil {
 		fmt.Println("replay: no violation")
